@@ -356,7 +356,7 @@ def run_tlc_trace(tpath, workdir, idx, timeout=1800):
     """Validate one trace file. Returns (list of violations, number of events)."""
     env = dict(os.environ)
     env["TRACE"] = tpath
-    env["JAVA_TOOL_OPTIONS"] = "-Xss1g -Xmx3g -Dtlc2.tool.queue.IStateQueue=StateDeque"
+    env["JAVA_TOOL_OPTIONS"] = "-Xss1g -Xmx3g -XX:ParallelGCThreads=2 -Dtlc2.tool.queue.IStateQueue=StateDeque"
     md = os.path.join(workdir, f"md{idx}")
     vout = os.path.join(workdir, f"viol{idx}.json")
     env["VIOLOUT"] = vout
@@ -381,7 +381,7 @@ def run_tlc_proto(tpath, workdir, idx, timeout=1800):
     Returns dict(drift=[...], nchecked=n)."""
     env = dict(os.environ)
     env["TRACE"] = tpath
-    env["JAVA_TOOL_OPTIONS"] = "-Xss1g -Xmx3g -Dtlc2.tool.queue.IStateQueue=StateDeque"
+    env["JAVA_TOOL_OPTIONS"] = "-Xss1g -Xmx3g -XX:ParallelGCThreads=2 -Dtlc2.tool.queue.IStateQueue=StateDeque"
     md = os.path.join(workdir, f"mdp{idx}")
     vout = os.path.join(workdir, f"proto{idx}.json")
     env["VIOLOUT"] = vout
